@@ -6,7 +6,8 @@
      {a:"Create"|"Supersede"|"Branch", wp, wins, tok, status, acc, tree, cur}  a body write; tree/cur = REAL rev tree
                                                                               afterwards (parents in model numbering)
      {a:"WriteReserved", wp, cls, mode, status, stored, getStatus}            a reserved-property write
-     {a:"Read", rev, rp, cache, status, valid, got, extra, ...}               got = which token of this instance the
+     {a:"Reads", items:[{rev, rp, cache, status, valid, got, extra, ...}]}    every read cell of the instance;
+                                                                              got = which token of this instance the
                                                                               returned body equals as a JSON value
                                                                               (0 = none), extra = top-level keys of
                                                                               the response that the token lacks
@@ -15,9 +16,9 @@
    every line is consumed exactly once (counter in TLCGet(1), printed as HWM by the POSTCONDITION).  -workers 1.
 
    Pass P (PSpec): rev tree := logged real tree, obs := logged outcome, ghosts advance from the logged inputs; the
-   cfg lists Fidelity and ReservedRejected only.  Pass C (CSpec): each line must also be an instance of the model
-   action from the previous real state (real tree = model tree, read cell inside the model's matrix, status as
-   modelled). *)
+   cfg lists Fidelity and ReservedRejected only (FidelityR = Fidelity, printing the failing items before failing).
+   Pass C (CSpec): each line must also be an instance of the model action from the previous real state (real tree =
+   model tree, exactly the model's read cells were exercised, statuses as modelled). *)
 EXTENDS BodyPaths, TraceLib
 
 VARIABLE l
@@ -26,6 +27,9 @@ tvars == <<vars, l>>
 StartLines == {i \in 1..TraceLen : Trace[i].a = "Reset"}
 ToSet(s) == {s[i] : i \in 1..Len(s)}
 T == Trace[l]
+(* the path sets in scope are those of the run that produced the trace (first line) *)
+TraceWP == ToSet(Trace[1].wps)
+TraceRP == ToSet(Trace[1].rps)
 Started == hist # <<>>
 Count == TLCSet(1, TLCGet(1) + 1)
 
@@ -47,12 +51,17 @@ PBranch    == Ev("Branch")    /\ LoggedTree /\ (IF T.acc THEN GhostWrite(T.wp, T
 LoggedResv == obs' = [k |-> IF T.cls \in MustReject(T.wp) THEN "resv" ELSE "lenient", wp |-> T.wp, cls |-> T.cls, mode |-> T.mode,
                       status |-> T.status, stored |-> T.stored, getStatus |-> T.getStatus]
 PResv      == Ev("WriteReserved") /\ LoggedResv /\ UNCHANGED <<tree, cur, written, by, hist>>
-LoggedRead == obs' = [k |-> "read", rev |-> T.rev, rp |-> T.rp, cache |-> T.cache, status |-> T.status, valid |-> T.valid,
-                      got |-> T.got, extra |-> ToSet(T.extra)]
-PRead      == Ev("Read") /\ LoggedRead /\ UNCHANGED <<tree, cur, written, by, hist>>
-PCore == Reset \/ PCreate \/ PSupersede \/ PBranch \/ PResv \/ PRead
+Item(n) == LET x == T.items[n] IN
+           [n |-> n, rev |-> x.rev, rp |-> x.rp, cache |-> x.cache, status |-> x.status, valid |-> x.valid, got |-> x.got,
+            extra |-> ToSet(x.extra)]
+LoggedReads == obs' = [k |-> "reads", items |-> {Item(n) : n \in 1..Len(T.items)}]
+PReads     == Ev("Reads") /\ LoggedReads /\ UNCHANGED <<tree, cur, written, by, hist>>
+PCore == Reset \/ PCreate \/ PSupersede \/ PBranch \/ PResv \/ PReads
 PNext == PCore /\ Count
 PSpec == TInit /\ [][PNext]_tvars
+
+(* the property, with the failing items printed (<<"BAD", trace line, item number>>) before the invariant fails *)
+FidelityR == Fidelity \/ ((\A x \in {y \in obs.items : ~FidOK(y)} : PrintT(<<"BAD", l - 1, x.n>>)) /\ FALSE)
 
 (* ---------------- pass C ---------------- *)
 Refused == UNCHANGED <<tree, cur>> /\ obs' = NoObs
@@ -65,10 +74,18 @@ CBranch    == Ev("Branch")    /\ N > 0 /\ T.wp \in BranchCapable /\ (IF T.acc TH
 CResv      == Ev("WriteReserved") /\ ResvEnabled(T.wp, T.cls) /\ T.mode = ResvMode /\ T.status < 500
               /\ (T.cls \in MustReject(T.wp) => T.status \in {400, 404, 409})
               /\ LoggedResv /\ UNCHANGED <<tree, cur, written, by, hist>>
-CRead      == Ev("Read") /\ ReadEnabled(T.rev, T.rp, T.cache)
-              /\ (T.status = 200 \/ (Kind(T.rev) = "old" /\ T.cache = "cold"))
-              /\ LoggedRead /\ UNCHANGED <<tree, cur, written, by, hist>>
-CCore == Reset \/ CCreate \/ CSupersede \/ CBranch \/ CResv \/ CRead
+(* exactly the cells of the model were exercised (minus the ones the harness reported unobservable), and everything
+   the model says is available answered 200 *)
+CReads ==
+  /\ Ev("Reads")
+  /\ N > 0
+  /\ LET got == {<<T.items[n].rev, T.items[n].rp, T.items[n].cache>> : n \in 1..Len(T.items)}
+         skipped == {<<T.skipped[n].rev, T.skipped[n].rp, T.skipped[n].cache>> : n \in 1..Len(T.skipped)}
+     IN  (got \cup skipped = CellsNow) /\ (got \cap skipped = {})
+  /\ \A n \in 1..Len(T.items) : (T.items[n].status = 200) \/ (Kind(T.items[n].rev) = "old" /\ T.items[n].cache = "cold")
+  /\ LoggedReads
+  /\ UNCHANGED <<tree, cur, written, by, hist>>
+CCore == Reset \/ CCreate \/ CSupersede \/ CBranch \/ CResv \/ CReads
 CNext == CCore /\ Count
 CSpec == TInit /\ [][CNext]_tvars
 
